@@ -55,6 +55,35 @@ class Closure:
         s.node = node
         s.frame = frame
 
+    def __call__(s, *args, **kw):
+        # called back from native code (map, filter, sorted(key=...), functools.reduce, ...)
+        try:
+            return s.frame.it.call(s.frame, s, list(args), dict(kw))
+        except PyExc as pe:
+            raise pe.exc
+
+    @property
+    def __name__(s):
+        return getattr(s.node, 'name', '<lambda>')
+
+
+_YIELD_CACHE = {}
+
+
+def _has_yield(node):
+    k = id(node)
+    if k not in _YIELD_CACHE:
+        found = False
+        todo = list(getattr(node, 'body', [])) if not isinstance(node, ast.Lambda) else []
+        while todo and not found:
+            n = todo.pop()
+            if isinstance(n, (ast.Yield, ast.YieldFrom)):
+                found = True
+            elif not isinstance(n, (ast.FunctionDef, ast.AsyncFunctionDef, ast.Lambda, ast.ClassDef)):
+                todo.extend(ast.iter_child_nodes(n))
+        _YIELD_CACHE[k] = (found, node)
+    return _YIELD_CACHE[k][0]
+
 
 class SuperProxy:
     def __init__(s, cls, obj):
@@ -288,6 +317,10 @@ class Interp:
         elif kw:
             raise PyExc(TypeError(f"got an unexpected keyword argument '{next(iter(kw))}'"))
         fr = Frame(self, fn, env, parent)
+        if _has_yield(node):
+            # generator function: the body runs to completion at the call and the values are handed out afterwards
+            # (exact for finite generators whose consumers do not interleave side effects with the producer)
+            fr.yielded = []
         self.depth += 1
         if self.depth > 60:
             self.depth -= 1
@@ -297,9 +330,13 @@ class Interp:
                 return fr.ev(node.body)
             fr.block(node.body)
         except _Return as r:
+            if getattr(fr, 'yielded', None) is not None:
+                return iter(fr.yielded)
             return r.v
         finally:
             self.depth -= 1
+        if getattr(fr, 'yielded', None) is not None:
+            return iter(fr.yielded)
         return None
 
     def run_module_body(self, module_name, source, filename, extra_globals=None):
@@ -511,6 +548,21 @@ class Frame:
                     e = s.it.call(s, e, [], {})
                 if not isinstance(e, BaseException):
                     raise PyExc(TypeError('exceptions must derive from BaseException'))
+                if st.cause is not None:
+                    c = s.ev(st.cause)
+                    if isinstance(c, type):
+                        c = s.it.call(s, c, [], {})
+                    if c is not None and not isinstance(c, BaseException):
+                        raise PyExc(TypeError('exception causes must derive from BaseException'))
+                    try:
+                        e.__cause__ = c
+                    except Exception:
+                        pass
+                elif s.cur is not None and e is not s.cur.exc:
+                    try:
+                        e.__context__ = s.cur.exc
+                    except Exception:
+                        pass
                 raise PyExc(e, st.lineno, s.fn.__qualname__)
             elif T is ast.Try:
                 s.exec_try(st)
@@ -629,7 +681,20 @@ class Frame:
         if isinstance(t, ast.Name):
             s.store_name(t.id, v)
         elif isinstance(t, (ast.Tuple, ast.List)):
-            vs = s.iterate(v)
+            vs = list(s.iterate(v))
+            stars = [i for i, x in enumerate(t.elts) if isinstance(x, ast.Starred)]
+            if stars:
+                i, after = stars[0], len(t.elts) - stars[0] - 1
+                if len(stars) > 1:
+                    raise PyExc(SyntaxError('multiple starred expressions in assignment'))
+                if len(vs) < len(t.elts) - 1:
+                    raise PyExc(ValueError(f'not enough values to unpack (expected at least {len(t.elts) - 1}, got {len(vs)})'))
+                for tt, vv in zip(t.elts[:i], vs[:i]):
+                    s.assign(tt, vv)
+                s.assign(t.elts[i].value, vs[i:len(vs) - after])
+                for tt, vv in zip(t.elts[i + 1:], vs[len(vs) - after:] if after else []):
+                    s.assign(tt, vv)
+                return
             if len(vs) != len(t.elts):
                 raise PyExc(ValueError('not enough / too many values to unpack'))
             for tt, vv in zip(t.elts, vs):
@@ -744,6 +809,17 @@ class Frame:
                     except Exception as ex:
                         raise PyExc(ex)
                 raise PyExc(TypeError(f"bad operand type for unary -: '{pytype_of(v).__name__}'"))
+            if isinstance(e.op, ast.Invert):
+                if isinstance(v, SInt):
+                    return SInt(-v.e - 1)
+                if isinstance(v, SBool):
+                    return SInt(z3.If(v.e, z3.IntVal(-2), z3.IntVal(-1)))
+                if not isinstance(v, Sym):
+                    try:
+                        return ~v
+                    except Exception as ex:
+                        raise PyExc(ex)
+                raise PyExc(TypeError(f"bad operand type for unary ~: '{pytype_of(v).__name__}'"))
             raise Unsupported('unary ' + type(e.op).__name__)
         if T is ast.Compare:
             left = s.ev(e.left)
@@ -872,6 +948,17 @@ class Frame:
             v = s.ev(e.value)
             s.assign(e.target, v)
             return v
+        if T is ast.Yield or T is ast.YieldFrom:
+            f = s
+            while f is not None and getattr(f, 'yielded', None) is None:
+                f = getattr(f, 'parent', None) if getattr(f, 'is_comp', False) else None
+            if f is None:
+                raise Unsupported('expression ' + T.__name__)
+            if T is ast.Yield:
+                f.yielded.append(s.ev(e.value) if e.value is not None else None)
+            else:
+                f.yielded.extend(s.iterate(s.ev(e.value)))
+            return None
         if T is ast.Starred:
             raise Unsupported('starred expression')
         raise Unsupported('expression ' + T.__name__)
